@@ -247,14 +247,17 @@ def sbaFree (s : State) : Ptr → State
 
 /-! ### ghost memory -/
 
-def writeBytes (m : Loc → UInt8) (p : Ptr) (bs : List UInt8) : Loc → UInt8 :=
+/-- store `arr` at the start of block `p` (array form: the compiled driver indexes in constant time) -/
+def writeBytesA (m : Loc → UInt8) (p : Ptr) (arr : Array UInt8) : Loc → UInt8 :=
   fun l =>
     match p, l with
     | .chunk a, .pg page o =>
-      if page = a.page ∧ a.off ≤ o ∧ o < a.off + bs.length then bs.getD (o - a.off) 0 else m l
+      if page = a.page ∧ a.off ≤ o ∧ o < a.off + arr.size then arr.getD (o - a.off) 0 else m l
     | .big id, .big id' o =>
-      if id' = id ∧ o < bs.length then bs.getD o 0 else m l
+      if id' = id ∧ o < arr.size then arr.getD o 0 else m l
     | _, _ => m l
+
+def writeBytes (m : Loc → UInt8) (p : Ptr) (bs : List UInt8) : Loc → UInt8 := writeBytesA m p bs.toArray
 
 def readBytes (m : Loc → UInt8) (p : Ptr) (n : Nat) : List UInt8 :=
   (List.range n).map (fun i => m (p.at i))
@@ -297,12 +300,19 @@ def act (s : State) : Act → State × Option Ptr
     else (s, none)
   | .write p bs =>
     match sizeOf? s.live p with
-    | some n => if bs.length ≤ n then ({ s with mem := writeBytes s.mem p bs }, none) else (s, none)
+    | some n =>
+      if bs.length ≤ n then
+        let arr := bs.toArray      -- evaluated once, captured by the closure (= writeBytes s.mem p bs)
+        ({ s with mem := writeBytesA s.mem p arr }, none)
+      else (s, none)
     | none => (s, none)
   | .copy dst src n =>
     match sizeOf? s.live dst, sizeOf? s.live src with
     | some nd, some ns =>
-      if n ≤ nd ∧ n ≤ ns then ({ s with mem := writeBytes s.mem dst (readBytes s.mem src n) }, none) else (s, none)
+      if n ≤ nd ∧ n ≤ ns then
+        let arr := (readBytes s.mem src n).toArray
+        ({ s with mem := writeBytesA s.mem dst arr }, none)
+      else (s, none)
     | _, _ => (s, none)
   | .resize p n =>
     match sizeOf? s.live p with
